@@ -452,3 +452,8 @@ Proof.
   - destruct (project leaf k heads l) as [v1|]; [|discriminate]. destruct (project leaf k heads r) as [v2|]; [|discriminate].
     inversion E; subst. now rewrite (IHl v1 eq_refl), (IHr v2 eq_refl).
 Qed.
+
+Theorem views_same_derivation (L : Type) (leaf : token -> option L) k heads t v :
+  project leaf k heads t = Some v ->
+  project (fun _ => Some tt) k heads t = Some (vmap (fun _ => tt) v) /\ tree_skeleton t = Some (skeleton_of v).
+Proof. intros H. split; [exact (project_erase leaf k heads t v H) | exact (project_skeleton leaf k heads t v H)]. Qed.
